@@ -33,3 +33,20 @@ Definition inbox (pol : peer -> tpolicy) (x : peer) (pub : list sdelta) : list d
   map sd_delta (filter (fun d => trusts pol x (sd_signer d)) pub).
 
 Definition pinset_of (pol : peer -> tpolicy) (x : peer) (arr : list arrival) : rep := run (merged pol x arr) rempty.
+
+(* ---- which updates can arrive at all: gossipsub forwards a message only after the forwarder's OWN validator accepted
+   it, so a message signed by s travels along links whose intermediate peers all trust s; the receiver then applies its
+   own validator. A relay that does not trust the signer stops the message (and never holds its blocks). *)
+Definition link := (peer * peer)%type.
+Definition neighbours (links : list link) (p : peer) : list peer :=
+  flat_map (fun l => if fst l =? p then [snd l] else if snd l =? p then [fst l] else []) links.
+
+(* one round: every peer that holds the message passes it to its neighbours; a neighbour keeps it iff it trusts s *)
+Definition spread (pol : peer -> tpolicy) (links : list link) (s : peer) (have : list peer) : list peer :=
+  have ++ filter (fun r => trusts pol r s && negb (memN r have)) (flat_map (neighbours links) have).
+Fixpoint spread_n (n : nat) (pol : peer -> tpolicy) (links : list link) (s : peer) (have : list peer) : list peer :=
+  match n with O => have | S k => spread_n k pol links s (spread pol links s have) end.
+
+(* the peers an update signed by s reaches (and is accepted by), in a network of at most n peers *)
+Definition holders (n : nat) (pol : peer -> tpolicy) (links : list link) (s : peer) : list peer := spread_n n pol links s [s].
+Definition deliverable (n : nat) (pol : peer -> tpolicy) (links : list link) (s x : peer) : bool := memN x (holders n pol links s).
